@@ -7,8 +7,8 @@ CONSTANTS
   Queries = {"-", "k=1"}
   RelSegs = {"p", ".", ".."}
   MaxRel = 2
-  StatusSet = {300, 301, 302, 303, 307, 308, 399}
-  MethodSet = {"GET", "HEAD", "POST", "DELETE", "OPTIONS"}
+  StatusSet = {302, 307}
+  MethodSet = {"GET", "POST", "DELETE"}
   MaxHops = 3
   Defects = {}
   DumpEdges = FALSE
